@@ -237,6 +237,9 @@ struct StageRt {
     replica: Vector<It>,
     param: Option<usize>,
     handle: Option<QueueHandle<usize>>,
+    /// set when the adapter's stream, used as an observer itself (`VectorObserver::into_parts`), handed over something
+    /// else than the view its constructor returned: (values from the constructor, values from into_parts)
+    handover: Option<(Vec<u32>, Vec<u32>)>,
 }
 
 /// statistics a run reports (for the coverage numbers of the evidence)
@@ -257,11 +260,21 @@ macro_rules! build_chain {
                 let is_last = sti + 1 == stages.len();
                 let handle = if st.is_dynamic() { Some(QueueHandle::<usize>::new()) } else { None };
                 let obs = (cur_v, cur_s);
+                let mut handover: Option<(Vec<u32>, Vec<u32>)> = None;
                 let (v2, s2): (Vector<It>, DynStream<$item>) = match st.clone() {
                     Stage::Identity => obs,
                     Stage::Head(l) => {
                         let (v, s) = obs.head(l);
-                        (v, Box::pin(s))
+                        if is_last {
+                            (v, Box::pin(s))
+                        } else {
+                            // chaining through the stream alone: what the next stage gets when the stream is the observer
+                            let (v2, s2) = s.into_parts();
+                            if ids(&v2) != ids(&v) {
+                                handover = Some((ids(&v), ids(&v2)));
+                            }
+                            (v2, Box::pin(s2))
+                        }
                     }
                     Stage::HeadDyn => {
                         let h = obs.dynamic_head(handle.as_ref().unwrap().stream());
@@ -276,11 +289,29 @@ macro_rules! build_chain {
                     }
                     Stage::HeadDynInit(l) => {
                         let (v, s) = obs.dynamic_head_with_initial_value(l, handle.as_ref().unwrap().stream());
-                        (v, Box::pin(s))
+                        if is_last {
+                            (v, Box::pin(s))
+                        } else {
+                            // chaining through the stream alone: what the next stage gets when the stream is the observer
+                            let (v2, s2) = s.into_parts();
+                            if ids(&v2) != ids(&v) {
+                                handover = Some((ids(&v), ids(&v2)));
+                            }
+                            (v2, Box::pin(s2))
+                        }
                     }
                     Stage::Tail(l) => {
                         let (v, s) = obs.tail(l);
-                        (v, Box::pin(s))
+                        if is_last {
+                            (v, Box::pin(s))
+                        } else {
+                            // chaining through the stream alone: what the next stage gets when the stream is the observer
+                            let (v2, s2) = s.into_parts();
+                            if ids(&v2) != ids(&v) {
+                                handover = Some((ids(&v), ids(&v2)));
+                            }
+                            (v2, Box::pin(s2))
+                        }
                     }
                     Stage::TailDyn => {
                         let h = obs.dynamic_tail(handle.as_ref().unwrap().stream());
@@ -295,11 +326,29 @@ macro_rules! build_chain {
                     }
                     Stage::TailDynInit(l) => {
                         let (v, s) = obs.dynamic_tail_with_initial_value(l, handle.as_ref().unwrap().stream());
-                        (v, Box::pin(s))
+                        if is_last {
+                            (v, Box::pin(s))
+                        } else {
+                            // chaining through the stream alone: what the next stage gets when the stream is the observer
+                            let (v2, s2) = s.into_parts();
+                            if ids(&v2) != ids(&v) {
+                                handover = Some((ids(&v), ids(&v2)));
+                            }
+                            (v2, Box::pin(s2))
+                        }
                     }
                     Stage::Skip(l) => {
                         let (v, s) = obs.skip(l);
-                        (v, Box::pin(s))
+                        if is_last {
+                            (v, Box::pin(s))
+                        } else {
+                            // chaining through the stream alone: what the next stage gets when the stream is the observer
+                            let (v2, s2) = s.into_parts();
+                            if ids(&v2) != ids(&v) {
+                                handover = Some((ids(&v), ids(&v2)));
+                            }
+                            (v2, Box::pin(s2))
+                        }
                     }
                     Stage::SkipDyn => {
                         let h = obs.dynamic_skip(handle.as_ref().unwrap().stream());
@@ -314,7 +363,16 @@ macro_rules! build_chain {
                     }
                     Stage::SkipDynInit(l) => {
                         let (v, s) = obs.dynamic_skip_with_initial_count(l, handle.as_ref().unwrap().stream());
-                        (v, Box::pin(s))
+                        if is_last {
+                            (v, Box::pin(s))
+                        } else {
+                            // chaining through the stream alone: what the next stage gets when the stream is the observer
+                            let (v2, s2) = s.into_parts();
+                            if ids(&v2) != ids(&v) {
+                                handover = Some((ids(&v), ids(&v2)));
+                            }
+                            (v2, Box::pin(s2))
+                        }
                     }
                     Stage::Filter(b) => {
                         let (v, s) = obs.filter(move |x: &It| passes(b, x));
@@ -340,7 +398,7 @@ macro_rules! build_chain {
                 let log = Rc::new(RefCell::new(Vec::new()));
                 let ended = Rc::new(RefCell::new(false));
                 let tap = TapD { inner: s2, log: log.clone(), ended: ended.clone() };
-                rts.push(StageRt { st: st.clone(), initial: ids(&v2), log, ended, consumed: 0, replica: v2.clone(), param: st.initial_param(), handle });
+                rts.push(StageRt { st: st.clone(), initial: ids(&v2), log, ended, consumed: 0, replica: v2.clone(), param: st.initial_param(), handle, handover });
                 cur_v = v2;
                 cur_s = Box::pin(tap);
             }
@@ -460,6 +518,23 @@ fn run_inner<I: Flavour>(sc: &Scenario) -> Outcome {
     }
     all_stages.extend(sc.stages.iter().cloned());
     let (mut rts, fin0, _snap) = I::build(&ob, &all_stages);
+    for rt in rts.iter() {
+        if let Some((from_ctor, from_parts)) = &rt.handover {
+            return Outcome {
+                failure: Some(Failure {
+                    property: "C12",
+                    classification: format!("{}/handover", rt.st.name()),
+                    what: "the adapter's stream, used as the observer for the next stage (into_parts), does not hand over the view its constructor returned".to_string(),
+                    step: 0,
+                    expected: format!("{:?}", from_ctor),
+                    observed: format!("{:?}", from_parts),
+                    also: vec![],
+                }),
+                stats,
+                final_log: Vec::new(),
+            };
+        }
+    }
     let mut fin = Some(fin0);
     let mut abandoned = false;
     let mut closed_params: Vec<bool> = vec![false; rts.len()];
